@@ -19,7 +19,8 @@ PREV = {
   "PopRawBytes reading the bytes.Reader directly (zero-length read at the end)",
   "the flag bit in the tag of a hand-written wrapper struct (InitConnectionParams)",
   "PutString replacing invalid UTF-8 sequences before framing",
-  "the interface-fit check of decodeValue calling reflect.Value.IsNil on every decoded kind"
+  "the interface-fit check of decodeValue calling reflect.Value.IsNil on every decoded kind",
+  "the msg_container reader written as a composite literal (fields read in struct order)"
  ],
  "C02": [
   "one header byte of the long-string length in the TL encoder",
@@ -33,7 +34,8 @@ PREV = {
   "encodeStruct keeping its field list on the Encoder across nested objects",
   "the decoder's depth given back by a deferred closure that captured the incremented value",
   "the flag bit decided by a home-made emptiness test (empty slice counts as absent)",
-  "int128/int256 left-padded from a package-level zero array that append writes into"
+  "int128/int256 left-padded from a package-level zero array that append writes into",
+  "decodeObject allocating a pointer field before its presence test"
  ],
  "C03": [
   "the padding amount computed in ige.Encrypt",
@@ -47,7 +49,8 @@ PREV = {
   "transport.ReadMsg refusing packets sealed with a salt other than the session's",
   "DeserializeEncrypted returning the body together with the padding (GetRestOfMessage)",
   "ige.Decrypt trimming trailing zero bytes of the plaintext",
-  "serializePacket writing the session id before the salt"
+  "serializePacket writing the session id before the salt",
+  "the msg_key of a received packet read through Int128 (leading zeros lost)"
  ],
  "C04": [
   "the integer type used in the declared-length check of DeserializeEncrypted",
@@ -61,7 +64,8 @@ PREV = {
   "the key id compared with bytes.EqualFold",
   "the plaintext re-sliced past the inner header before the length refusal",
   "transport.ReadMsg routing every packet to the plain parser while the session has no key",
-  "the plain reader comparing the declared length with the body read instead of len(data)"
+  "the plain reader comparing the declared length with the body read instead of len(data)",
+  "transport.ReadMsg latching the first auth key it saw"
  ],
  "C05": [
   "the bound of the padding-strip loop in DecryptMessageWithTempKeys",
@@ -75,7 +79,8 @@ PREV = {
   "Decrypt stripping trailing zero bytes from its result",
   "DecryptMessageWithTempKeys decrypting into a sync.Pool buffer",
   "NewCipher caching the key schedule keyed by the caller's (aliased) key slice",
-  "EncryptMessageWithTempKeys hashing payload plus padding"
+  "EncryptMessageWithTempKeys hashing payload plus padding",
+  "ige.Decrypt running the block loop in place over the caller's ciphertext"
  ],
  "C06": [
   "the byte width used for the salt derived from server_nonce",
@@ -89,7 +94,8 @@ PREV = {
   "the service-channel send turned into a select with default",
   "p_q_inner_data.pq re-rendered from the parsed number (pq.Bytes())",
   "a generator check in makeAuthKey that forgets g = 4",
-  "SplitPQ drawing from one package-level math/rand.Rand"
+  "SplitPQ drawing from one package-level math/rand.Rand",
+  "MakeGAB stepping b and g_b to full width while g_ab stays"
  ],
  "C07": [
   "a wrong variable in one of the nonce comparisons of makeAuthKey",
@@ -103,7 +109,8 @@ PREV = {
   "makeRequest re-issuing the request on dh_gen_retry",
   "keys.RSAFingerprint memoised by a package-level sync.Once",
   "Disconnect saving the session whenever an auth key is present",
-  "readMsg passing only the success constructors to the service channel"
+  "readMsg passing only the success constructors to the service channel",
+  "the SHA-1 prefix of the DH answer compared through MessageKey (bytes 4..19 only)"
  ],
  "C08": [
   "a shift amount in the abridged length header writer",
@@ -117,7 +124,8 @@ PREV = {
   "mode.Detect reading into a slice of the package-level announcement array",
   "SetLinger(0) on the dialled TCP socket",
   "the abridged reader wrapping its read errors with %w",
-  "the intermediate length-prefix buffer kept in the mode object and shared by ReadMsg and WriteMsg"
+  "the intermediate length-prefix buffer kept in the mode object and shared by ReadMsg and WriteMsg",
+  "a four-byte frame treated as an error code only when negative"
  ],
  "C09": [
   "registering the response waiter after the request was written",
@@ -131,7 +139,8 @@ PREV = {
   "a gzip_packed rpc_result delivered without unwrapping",
   "Disconnect closing and forgetting every waiter",
   "container items dispatched in goroutines that share the loop variable",
-  "tryToProcessErr answering nil for rpc_error codes >= 500"
+  "tryToProcessErr answering nil for rpc_error codes >= 500",
+  "the bad_server_salt arm leaving early when the salt is already adopted"
  ],
  "C10": [
   "an early return that skips the acknowledgement in processResponse",
@@ -145,7 +154,8 @@ PREV = {
   "seq_no incremented in two halves around the write",
   "the ack test written as seq_no%2 == 1",
   "the bad_server_salt handler assigning bad_msg_seqno to the seq_no counter",
-  "the msg_container decoder reusing one Encrypted header for every item"
+  "the msg_container decoder reusing one Encrypted header for every item",
+  "a process-wide server-time offset applied in GenerateMessageId"
  ],
  "C11": [
   "skipping the waiter notification when the new salt was already adopted",
@@ -159,7 +169,8 @@ PREV = {
   "SaveSession called before the new salt of new_session_created is assigned",
   "a guard-clause break in the bad_server_salt arm leaving m.mutex locked",
   "the rotation handler deleting every table entry older than the rejected id",
-  "the bad_server_salt arm routed through writeRPCResponse (NotFound returned for a rejected ack)"
+  "the bad_server_salt arm routed through writeRPCResponse (NotFound returned for a rejected ack)",
+  "the retry marker sent with select/default"
  ],
  "C12": [
   "opening the session file without truncation in Store",
@@ -173,7 +184,8 @@ PREV = {
   "Store rendering the JSON by hand with %q",
   "the loader's cache key kept as mtime in whole seconds",
   "NewMTProto treating a stored session with salt 0 as not encrypted",
-  "NewFromFile expanding environment variables in the path"
+  "NewFromFile expanding environment variables in the path",
+  "telegram.NewClient checking the session directory via filepath.Split"
  ],
  "C13": [
   "two parameters swapped in one generated method signature",
@@ -187,7 +199,8 @@ PREV = {
   "one constructor dropped from the registration list in init_gen.go",
   "a field's flag bit changed in types_gen.go (WallPaperSettings.Rotation)",
   "one generated method building another method's Params struct",
-  "a generated wrapper returning the type assertion's ok flag instead of the asserted value"
+  "a generated wrapper returning the type assertion's ok flag instead of the asserted value",
+  "a Params field typed with the non-input twin constructor"
  ],
  "C14": [
   "the vector-ness of a parameter dropped from the generator's argument grouping test",
@@ -201,7 +214,8 @@ PREV = {
   "the wrapper body counting parameters without the flags word while the signature counts with it",
   "the enum classification taken from the last constructor of the type",
   "encoded_in_bitflags emitted for every conditional Go bool (flags.N?Bool too)",
-  "FlagIndex() emitted only when maxBitflag() > 0"
+  "FlagIndex() emitted only when maxBitflag() > 0",
+  "the wrapper's error branch returning a zero literal chosen from the element type alone"
  ],
  "C15": [
   "an integer overflow in the vector size bound of the decoder",
@@ -215,7 +229,8 @@ PREV = {
   "decodeValue going on into the kind switch after an error set below it",
   "the string-length bound moved into read(), after the allocation",
   "DecodeNestedObject starting the inner decoder at depth 0",
-  "the nesting depth counted only for pointer and slice kinds"
+  "the nesting depth counted only for pointer and slice kinds",
+  "PopRawBytes losing its size < 0 test"
  ],
  "C16": [
   "waiting on the goroutine wait-group from inside the reading goroutine on disconnect",
@@ -229,7 +244,8 @@ PREV = {
   "Disconnect closing the waiter channels while the table keeps the entries",
   "a guard-clause break in the bad_server_salt arm leaving m.mutex locked",
   "the EOF arm of the receive loop calling CreateConnection without Disconnect",
-  "the waiter table's Add taking RLock instead of Lock"
+  "the waiter table's Add taking RLock instead of Lock",
+  "a replay guard on the highest server msg_id at the entry of processResponse"
  ],
  "C17": [
   "an extra row in the error-prefix table",
@@ -243,7 +259,8 @@ PREV = {
   "SetDCList rebuilding the table aside with the old entries copied last",
   "negative rpc_error codes made positive in RpcErrorToNative",
   "a gzip_packed rpc_result delivered without unwrapping (rpc_error lost)",
-  "a negative PHONE_MIGRATE target flipped to its absolute value"
+  "a negative PHONE_MIGRATE target flipped to its absolute value",
+  "a failed migration reconnecting back and returning that reconnect's result"
  ],
  "C18": [
   "the 256-byte padding dropped on one SRP intermediate value",
@@ -257,7 +274,8 @@ PREV = {
   "saltingHashing appending onto the caller's salt slice",
   "the exported wrapper testing res == nil before err",
   "H(p) xor H(g) computed through big.Int (leading zero bytes lost)",
-  "the SRP group check refusing g >= 7"
+  "the SRP group check refusing g >= 7",
+  "the 'no password' early return also firing for an empty B"
  ],
  "C19": [
   "a math/rand fallback when crypto/rand fails",
@@ -271,7 +289,8 @@ PREV = {
   "MakeGAB memoising (b, g^b) per group in a sync.Map",
   "the clock OR-ed into the req_pq nonce after the draw",
   "the upper half of the req_pq nonce overwritten with the session id",
-  "the SRP ephemeral redrawn from math/rand when it is >= p"
+  "the SRP ephemeral redrawn from math/rand when it is >= p",
+  "a Config.Rand field assigned to crypto/rand.Reader in NewMTProto"
  ],
  "C20": [
   "lower-casing the whole URL path before template matching",
@@ -285,7 +304,8 @@ PREV = {
   "TrimPrefix(username, \"@\") before lower-casing the domain",
   "a third path template /joinchat overlapping /{username}",
   "host membership tested with strings.EqualFold",
-  "lower-casing of the username skipped unless unicode.IsUpper finds a letter"
+  "lower-casing of the username skipped unless unicode.IsUpper finds a letter",
+  "the scheme switch rewritten with strings.HasPrefix(\"https\", scheme)"
  ]
 }
 TASK = 'You are helping test a verification framework by writing ONE realistic defect into a Go library. Work ONLY inside the git worktree /tmp/seed/{ID}-{R} (a checkout of the pure-Go MTProto/Telegram client library xelaj/mtproto). Do NOT read or write anything under /verif, /repo or /root/.vp, and do not look at other directories under /tmp/seed. Do NOT use `git stash` (the stash is shared with other worktrees): to run something without your change use `git diff > /tmp/seed/{ID}-{R}.patch; git apply -R /tmp/seed/{ID}-{R}.patch; ...; git apply /tmp/seed/{ID}-{R}.patch`.\n\nThe property the library is supposed to satisfy is in /tmp/seed/{ID}-{R}.prop.txt - read it first, then read the source files it names (and whatever they call).\n\nEnvironment (every shell call): `export GOFLAGS=-mod=mod GOPROXY=off GOSUMDB=off GOTOOLCHAIN=local` (no network, nothing can be downloaded). The repository has three Go modules: `.`, `internal/cmd/tlgen`, `telegram/deeplinks`. The existing test suite is: `for m in . internal/cmd/tlgen telegram/deeplinks; do (cd /tmp/seed/{ID}-{R}/$m && go test -vet=off -count=1 ./...) || echo FAILED; done` (building package telegram takes about a minute).\n\nTask: make ONE small, realistic change to the non-test source (the kind of slip, "simplification", "optimisation", "hardening", refactoring or well-meant "fix" a hurried maintainer could plausibly make and a reviewer could plausibly miss) such that the property NO LONGER HOLDS for some input / path / schedule / history, while (a) everything still compiles in all three modules and (b) the existing test suite still passes, unedited. Prefer a defect that needs something specific to manifest (a particular value shape, boundary, rare path, interleaving or error condition) over one that breaks every use. Keep the change minimal (1-12 lines). Previous testers already tried these: {PREV}. Choose a DIFFERENT place and mechanism from all of them. Go through the clauses of the property statement and its quantifier one by one, list which clause each earlier attempt attacked, and pick a clause (or a helper function, a caller, an initialisation, a cleanup path) nobody has touched; the less obvious the better, as long as the property is genuinely broken.\n\nDeliver, all inside /tmp/seed/{ID}-{R}:\n1. the change itself, left uncommitted in the worktree (source files only);\n2. a demonstration: NEW test file(s) named zz_seed_demo_test.go in the package(s) concerned (same-package tests may use unexported identifiers), test names starting with TestSeed, that FAIL with your change and PASS on the original code - verify both yourself; it must be deterministic (or repeat enough to be reliable) and finish within a minute; use fake connections/servers/in-memory pipes where needed, never the network;\n3. /tmp/seed/{ID}-{R}/SEED.md describing: what you changed and where, why it breaks the property, what it needs in order to manifest, and the exact commands you ran with their results.\n\nFinish by reporting: the output of `git -C /tmp/seed/{ID}-{R} diff` (source change only), the demo file path(s), and the observed results of the runs (suite with change, demo with change, demo without change). If your first idea turns out to be caught by the existing tests, try another. If, while reading, you notice something in the UNCHANGED code that already violates the property, mention it briefly at the end of your report (do not use it as your seed).\n'
